@@ -81,6 +81,7 @@ class Shape:
         if k == "path":
             kind, _, p = e["res"].partition(":")
             if kind == "local":
+                p = p.split("#", 1)[0]
                 return env.get(p, "?" + p)
             if p.endswith("ZddRef::Base"):
                 return "Base"
@@ -452,6 +453,10 @@ def run(ctx):
             ctx.guard("shape", lambda fn=fn, op=op: analyse_binop(ctx, op, fn))
     for fn in PRODUCT:
         ctx.guard("shape-product", lambda fn=fn: analyse_product(ctx, fn))
+    # operations "including after arena garbage collection": the operation caches are keyed by node ids, so every
+    # replacement of the node table must clear each of them on all paths (rule shared with C07)
+    from rules import C07
+    ctx.guard("comut", lambda: C07.run_comut(ctx))
     # anchors must be the only recursive set operations: any other function in the crate whose name says
     # union/intersection/difference and that calls get_or_create recursively must be in the table above
     F = ctx.facts()
